@@ -38,6 +38,10 @@ def main() -> int:
     for d in dirs:
         meta = json.loads((d / "meta.json").read_text())
         prop = meta["property"]
+        if meta.get("out_of_scope"):
+            print(f"{d.name}: outside what the property states, skipped")
+            results.append({"id": d.name, "property": prop, "status": "out_of_scope", "why": meta["out_of_scope"]})
+            continue
         if meta.get("obsolete"):
             print(f"{d.name}: obsolete (no longer a defect on this tree), skipped")
             results.append({"id": d.name, "property": prop, "status": "obsolete_after_fix", "why": meta["obsolete"]})
@@ -68,7 +72,7 @@ def main() -> int:
     for r in results:
         prev[r["id"]] = r
     out.write_text(json.dumps(sorted(prev.values(), key=lambda r: r["id"]), indent=1))
-    missed = [r for r in results if r["status"] not in ("detected", "obsolete_after_fix")]
+    missed = [r for r in results if r["status"] not in ("detected", "obsolete_after_fix", "out_of_scope")]
     print(f"{len(results) - len(missed)}/{len(results)} detected")
     return 1 if missed else 0
 
